@@ -30,8 +30,39 @@ type concGen struct {
 	pools   map[string]bool
 	maps    map[string]bool // package-level variables other than mutexes, pools and self-synchronising types
 	topSpec map[*ast.ValueSpec]bool
+	structs map[string]*structInfo // struct types declared in the package
+	varType map[string]string      // package-level variable -> its struct type (T for T, *T, T{…}, &T{…}, new(T))
+	shared  map[string]bool        // struct types that have a package-level instance
+	recv    string                 // receiver name of the method being read, "" in a function
+	recvT   string                 // its struct type when that type is shared
 	mutable map[string]bool
 	rel     map[string]bool
+}
+
+// structInfo: the fields of a struct type that matter for the lock discipline
+type structInfo struct {
+	fields      []string
+	mutexFields map[string]bool // fields of type sync.Mutex / sync.RWMutex (an embedded one is named Mutex / RWMutex)
+	poolFields  map[string]bool
+	selfSync    map[string]bool // sync.Map, sync.Once, atomic.*: synchronise themselves
+}
+
+func typeName(e ast.Expr) string {
+	switch x := e.(type) {
+	case *ast.Ident:
+		return x.Name
+	case *ast.StarExpr:
+		return typeName(x.X)
+	case *ast.UnaryExpr:
+		return typeName(x.X)
+	case *ast.CompositeLit:
+		return typeName(x.Type)
+	case *ast.CallExpr:
+		if id, ok := x.Fun.(*ast.Ident); ok && id.Name == "new" && len(x.Args) == 1 {
+			return typeName(x.Args[0])
+		}
+	}
+	return ""
 }
 
 func recvName(fd *ast.FuncDecl) string {
@@ -50,7 +81,8 @@ func recvName(fd *ast.FuncDecl) string {
 
 func genConc(repo, out string) {
 	g := &concGen{fset: token.NewFileSet(), funcs: map[string]*ast.FuncDecl{}, byName: map[string][]string{},
-		mutexes: map[string]bool{}, pools: map[string]bool{}, maps: map[string]bool{}, topSpec: map[*ast.ValueSpec]bool{}, mutable: map[string]bool{}, rel: map[string]bool{}}
+		mutexes: map[string]bool{}, pools: map[string]bool{}, maps: map[string]bool{}, topSpec: map[*ast.ValueSpec]bool{},
+		structs: map[string]*structInfo{}, varType: map[string]string{}, shared: map[string]bool{}, mutable: map[string]bool{}, rel: map[string]bool{}}
 	files, _ := filepath.Glob(filepath.Join(repo, "*.go"))
 	sort.Strings(files)
 	var parsed []*ast.File
@@ -75,6 +107,46 @@ func genConc(repo, out string) {
 		for _, d := range af.Decls {
 			switch x := d.(type) {
 			case *ast.GenDecl:
+				if x.Tok == token.TYPE {
+					for _, sp := range x.Specs {
+						ts, ok := sp.(*ast.TypeSpec)
+						if !ok {
+							continue
+						}
+						st, ok := ts.Type.(*ast.StructType)
+						if !ok {
+							continue
+						}
+						si := &structInfo{mutexFields: map[string]bool{}, poolFields: map[string]bool{}, selfSync: map[string]bool{}}
+						for _, f := range st.Fields.List {
+							tstr := typeStr(f.Type)
+							names := []string{}
+							for _, n := range f.Names {
+								names = append(names, n.Name)
+							}
+							if len(names) == 0 { // embedded
+								nm := tstr
+								if i := strings.LastIndex(nm, "."); i >= 0 {
+									nm = nm[i+1:]
+								}
+								names = []string{strings.TrimPrefix(nm, "*")}
+							}
+							for _, n := range names {
+								si.fields = append(si.fields, n)
+								switch {
+								case strings.Contains(tstr, "sync.Mutex") || strings.Contains(tstr, "sync.RWMutex"):
+									si.mutexFields[n] = true
+								case strings.Contains(tstr, "sync.Pool"):
+									si.poolFields[n] = true
+								case strings.Contains(tstr, "sync.Map") || strings.Contains(tstr, "sync.Once") || strings.Contains(tstr, "atomic."):
+									si.selfSync[n] = true
+								}
+							}
+						}
+						g.structs[ts.Name.Name] = si
+					}
+					continue
+				}
 				if x.Tok != token.VAR {
 					continue
 				}
@@ -97,6 +169,11 @@ func genConc(repo, out string) {
 							// synchronise themselves
 						case nm.Name != "_":
 							g.maps[nm.Name] = true
+							if tn := typeName(vs.Type); tn != "" {
+								g.varType[nm.Name] = tn
+							} else if tn := typeName(val); tn != "" {
+								g.varType[nm.Name] = tn
+							}
 						}
 					}
 				}
@@ -113,12 +190,20 @@ func genConc(repo, out string) {
 			}
 		}
 	}
+	for v, t := range g.varType {
+		if g.structs[t] == nil {
+			delete(g.varType, v)
+		} else {
+			g.shared[t] = true
+		}
+	}
 	// maps written somewhere in a function body (package init functions run
 	// before any goroutine exists: a map filled only there is read-only afterwards)
 	for k, fd := range g.funcs {
 		if k == "init" {
 			continue
 		}
+		g.enter(fd)
 		ast.Inspect(fd.Body, func(n ast.Node) bool {
 			switch x := n.(type) {
 			case *ast.AssignStmt:
@@ -126,18 +211,18 @@ func genConc(repo, out string) {
 					break
 				}
 				for _, l := range x.Lhs {
-					if id := g.rootVar(l); id != "" {
+					for _, id := range g.locs(l) {
 						g.mutable[id] = true
 					}
 				}
 			case *ast.CallExpr:
 				if id, ok := x.Fun.(*ast.Ident); ok && id.Name == "delete" && len(x.Args) > 0 {
-					if m := g.rootVar(x.Args[0]); m != "" {
+					for _, m := range g.locs(x.Args[0]) {
 						g.mutable[m] = true
 					}
 				}
 			case *ast.IncDecStmt:
-				if id := g.rootVar(x.X); id != "" {
+				for _, id := range g.locs(x.X) {
 					g.mutable[id] = true
 				}
 			}
@@ -149,6 +234,7 @@ func genConc(repo, out string) {
 	direct := map[string]bool{}
 	delete(g.funcs, "init")
 	for k, fd := range g.funcs {
+		g.enter(fd)
 		acts := g.block(fd.Body.List, nil)
 		if hasDirect(acts) {
 			direct[k] = true
@@ -163,6 +249,7 @@ func genConc(repo, out string) {
 			if g.rel[k] {
 				continue
 			}
+			g.enter(fd)
 			acts := g.block(fd.Body.List, g.rel)
 			if len(acts) > 0 && hasAny(acts) {
 				g.rel[k] = true
@@ -176,6 +263,7 @@ func genConc(repo, out string) {
 	}
 	sort.Strings(keys)
 	for _, k := range keys {
+		g.enter(g.funcs[k])
 		progs[k] = renderActs(g.block(g.funcs[k].Body.List, g.rel))
 	}
 	var b bytes.Buffer
@@ -192,6 +280,55 @@ func genConc(repo, out string) {
 		fmt.Fprintf(&b, "  (\"%s\", %s)%s\n", k, progs[k], sep)
 	}
 	b.WriteString("].\n\n")
+	// entry points: the functions a goroutine can start in — exported ones, functions used as values
+	// (the function table dispatches func_* through values) and functions nobody calls by name; the
+	// others are helpers, checked in the context of their callers
+	called, asValue := map[string]bool{}, map[string]bool{}
+	for _, fd := range g.funcs {
+		callFuns := map[*ast.Ident]bool{}
+		ast.Inspect(fd.Body, func(n ast.Node) bool {
+			if c, ok := n.(*ast.CallExpr); ok {
+				switch f := c.Fun.(type) {
+				case *ast.Ident:
+					callFuns[f] = true
+					called[f.Name] = true
+				case *ast.SelectorExpr:
+					callFuns[f.Sel] = true
+					called[f.Sel.Name] = true
+				}
+			}
+			return true
+		})
+		ast.Inspect(fd.Body, func(n ast.Node) bool {
+			if id, ok := n.(*ast.Ident); ok && !callFuns[id] && len(g.byName[id.Name]) > 0 && id.Obj == nil {
+				asValue[id.Name] = true
+			}
+			return true
+		})
+	}
+	for _, af := range parsed { // function values in package-level initialisers (the function table)
+		for _, d := range af.Decls {
+			if gd, ok := d.(*ast.GenDecl); ok && gd.Tok == token.VAR {
+				ast.Inspect(gd, func(n ast.Node) bool {
+					if id, ok := n.(*ast.Ident); ok && len(g.byName[id.Name]) > 0 {
+						asValue[id.Name] = true
+					}
+					return true
+				})
+			}
+		}
+	}
+	ents := []string{}
+	for _, k := range keys {
+		bare := k
+		if i := strings.LastIndex(k, "."); i >= 0 {
+			bare = k[i+1:]
+		}
+		if ast.IsExported(bare) || asValue[bare] || !called[bare] {
+			ents = append(ents, "\""+k+"\"")
+		}
+	}
+	fmt.Fprintf(&b, "Definition conc_entries : list string := [%s].\n", strings.Join(ents, "; "))
 	mv := []string{}
 	for m := range g.mutable {
 		mv = append(mv, "\""+m+"\"")
@@ -214,19 +351,29 @@ func genConc(repo, out string) {
 	writeIfChanged(filepath.Join(out, "Conc.v"), b.Bytes())
 }
 
-// rootVar: the package-level variable (not a mutex or pool) an assignable expression is rooted in, or "".
-// An identifier resolved by the parser to a local declaration is not one.
-func (g *concGen) rootVar(e ast.Expr) string {
+// enter records the receiver of the method about to be read: inside a method of a struct type that
+// has a package-level instance, `r.f` is the shared location T.f
+func (g *concGen) enter(fd *ast.FuncDecl) {
+	g.recv, g.recvT = "", ""
+	if fd.Recv == nil || len(fd.Recv.List) == 0 || len(fd.Recv.List[0].Names) == 0 {
+		return
+	}
+	t := recvName(fd)
+	if g.structs[t] != nil && g.shared[t] {
+		g.recv, g.recvT = fd.Recv.List[0].Names[0].Name, t
+	}
+}
+
+// chain: the root identifier of an assignable expression and the first field selected from it
+func chain(e ast.Expr) (root *ast.Ident, first string) {
 	for {
 		switch x := e.(type) {
 		case *ast.Ident:
-			if g.isPkgVar(x) {
-				return x.Name
-			}
-			return ""
-		case *ast.IndexExpr:
-			e = x.X
+			return x, first
 		case *ast.SelectorExpr:
+			first = x.Sel.Name
+			e = x.X
+		case *ast.IndexExpr:
 			e = x.X
 		case *ast.StarExpr:
 			e = x.X
@@ -235,9 +382,105 @@ func (g *concGen) rootVar(e ast.Expr) string {
 		case *ast.SliceExpr:
 			e = x.X
 		default:
-			return ""
+			return nil, ""
 		}
 	}
+}
+
+// structOf: the shared struct type an identifier stands for (a package-level variable of that type, or
+// the receiver of the method being read), or ""
+func (g *concGen) structOf(id *ast.Ident) string {
+	if id == nil {
+		return ""
+	}
+	if g.isPkgVar(id) {
+		return g.varType[id.Name]
+	}
+	if g.recv != "" && id.Name == g.recv && id.Obj != nil {
+		if _, isField := id.Obj.Decl.(*ast.Field); isField {
+			return g.recvT
+		}
+	}
+	return ""
+}
+
+// locs: the shared locations an assignable expression is rooted in (not mutexes, pools or
+// self-synchronising fields): the package-level variable X itself, or T.f for a field of a struct
+// type with a package-level instance (every field of T when the whole value is meant)
+func (g *concGen) locs(e ast.Expr) []string {
+	root, first := chain(e)
+	if root == nil {
+		return nil
+	}
+	if t := g.structOf(root); t != "" {
+		si := g.structs[t]
+		if first == "" {
+			var out []string
+			for _, f := range si.fields {
+				if !si.mutexFields[f] && !si.poolFields[f] && !si.selfSync[f] {
+					out = append(out, t+"."+f)
+				}
+			}
+			return out
+		}
+		if si.mutexFields[first] || si.poolFields[first] || si.selfSync[first] {
+			return nil
+		}
+		return []string{t + "." + first}
+	}
+	if g.isPkgVar(root) {
+		return []string{root.Name}
+	}
+	return nil
+}
+
+// mutable locations among locs(e)
+func (g *concGen) mlocs(e ast.Expr) []string {
+	var out []string
+	for _, l := range g.locs(e) {
+		if g.mutable[l] {
+			out = append(out, l)
+		}
+	}
+	return out
+}
+
+// syncName: the mutex (want = "mutex") or pool (want = "pool") a method receiver expression denotes:
+// a package-level variable of that kind, a field of that kind of a shared struct, or a shared struct
+// that embeds one
+func (g *concGen) syncName(e ast.Expr, want string) string {
+	root, first := chain(e)
+	if root == nil {
+		return ""
+	}
+	if first == "" {
+		if want == "mutex" && g.mutexes[root.Name] || want == "pool" && g.pools[root.Name] {
+			if root.Obj == nil || func() bool { vs, ok := root.Obj.Decl.(*ast.ValueSpec); return ok && g.topSpec[vs] }() {
+				return root.Name
+			}
+		}
+		if t := g.structOf(root); t != "" && want == "mutex" {
+			for _, emb := range []string{"Mutex", "RWMutex"} {
+				if g.structs[t].mutexFields[emb] {
+					g.mutexes[t+"."+emb] = true
+					return t + "." + emb
+				}
+			}
+		}
+		return ""
+	}
+	if t := g.structOf(root); t != "" {
+		si := g.structs[t]
+		if want == "mutex" && si.mutexFields[first] {
+			g.mutexes[t+"."+first] = true
+			return t + "." + first
+		}
+		if want == "pool" && si.poolFields[first] {
+			g.pools[t+"."+first] = true
+			return t + "." + first
+		}
+	}
+	return ""
 }
 
 func (g *concGen) isPkgVar(id *ast.Ident) bool {
@@ -339,8 +582,10 @@ func (g *concGen) stmt(s ast.Stmt, rel map[string]bool) []actT {
 			if ix, ok := l.(*ast.IndexExpr); ok {
 				out = append(out, g.expr(ix.Index, rel)...)
 			}
-			if id := g.rootVar(l); id != "" && g.mutable[id] && x.Tok != token.DEFINE {
-				out = append(out, actT{kind: "Write", arg: id})
+			if ms := g.mlocs(l); len(ms) > 0 && x.Tok != token.DEFINE {
+				for _, id := range ms {
+					out = append(out, actT{kind: "Write", arg: id})
+				}
 				continue
 			}
 			if _, ok := l.(*ast.Ident); !ok {
@@ -368,15 +613,29 @@ func (g *concGen) stmt(s ast.Stmt, rel map[string]bool) []actT {
 		} else {
 			inner = g.expr(x.Call, rel)
 		}
+		// a deferred call of a function of this package that releases (defer release(s)) counts as the
+		// releases it performs
 		var out []actT
-		for _, a := range flatten(inner) {
-			switch a.kind {
-			case "Unlock":
-				out = append(out, actT{kind: "DeferUnlock", arg: a.arg})
-			case "PoolPut":
-				out = append(out, actT{kind: "DeferPoolPut", arg: a.arg})
+		var collect func(as []actT, depth int)
+		collect = func(as []actT, depth int) {
+			for _, a := range flatten(as) {
+				switch a.kind {
+				case "Unlock":
+					out = append(out, actT{kind: "DeferUnlock", arg: a.arg})
+				case "PoolPut":
+					out = append(out, actT{kind: "DeferPoolPut", arg: a.arg})
+				case "Call":
+					if fd := g.funcs[a.arg]; fd != nil && depth < 3 {
+						r, rt := g.recv, g.recvT
+						g.enter(fd)
+						body := g.block(fd.Body.List, rel)
+						g.recv, g.recvT = r, rt
+						collect(body, depth+1)
+					}
+				}
 			}
 		}
+		collect(inner, 0)
 		return out
 	case *ast.ReturnStmt:
 		var out []actT
@@ -436,8 +695,12 @@ func (g *concGen) stmt(s ast.Stmt, rel map[string]bool) []actT {
 	case *ast.GoStmt:
 		return g.expr(x.Call, rel)
 	case *ast.IncDecStmt:
-		if id := g.rootVar(x.X); id != "" && g.mutable[id] {
-			return []actT{{kind: "Write", arg: id}}
+		if ms := g.mlocs(x.X); len(ms) > 0 {
+			var out []actT
+			for _, id := range ms {
+				out = append(out, actT{kind: "Write", arg: id})
+			}
+			return out
 		}
 		return g.expr(x.X, rel)
 	}
@@ -490,19 +753,25 @@ func (g *concGen) expr(e ast.Expr, rel map[string]bool) []actT {
 			}
 			switch f := x.Fun.(type) {
 			case *ast.SelectorExpr:
-				if id, ok := f.X.(*ast.Ident); ok {
-					switch {
-					case g.mutexes[id.Name] && (f.Sel.Name == "Lock" || f.Sel.Name == "RLock"):
-						out = append(out, actT{kind: "Lock", arg: id.Name})
+				switch f.Sel.Name {
+				case "Lock", "RLock":
+					if m := g.syncName(f.X, "mutex"); m != "" {
+						out = append(out, actT{kind: "Lock", arg: m})
 						return
-					case g.mutexes[id.Name] && (f.Sel.Name == "Unlock" || f.Sel.Name == "RUnlock"):
-						out = append(out, actT{kind: "Unlock", arg: id.Name})
+					}
+				case "Unlock", "RUnlock":
+					if m := g.syncName(f.X, "mutex"); m != "" {
+						out = append(out, actT{kind: "Unlock", arg: m})
 						return
-					case g.pools[id.Name] && f.Sel.Name == "Get":
-						out = append(out, actT{kind: "PoolGet", arg: id.Name})
+					}
+				case "Get":
+					if m := g.syncName(f.X, "pool"); m != "" {
+						out = append(out, actT{kind: "PoolGet", arg: m})
 						return
-					case g.pools[id.Name] && f.Sel.Name == "Put":
-						out = append(out, actT{kind: "PoolPut", arg: id.Name})
+					}
+				case "Put":
+					if m := g.syncName(f.X, "pool"); m != "" {
+						out = append(out, actT{kind: "PoolPut", arg: m})
 						return
 					}
 				}
@@ -517,7 +786,7 @@ func (g *concGen) expr(e ast.Expr, rel map[string]bool) []actT {
 				}
 			case *ast.Ident:
 				if f.Name == "delete" && len(x.Args) > 0 {
-					if m := g.rootVar(x.Args[0]); m != "" && g.mutable[m] {
+					for _, m := range g.mlocs(x.Args[0]) {
 						out = append(out, actT{kind: "Write", arg: m})
 					}
 				}
@@ -531,15 +800,12 @@ func (g *concGen) expr(e ast.Expr, rel map[string]bool) []actT {
 			}
 		case *ast.IndexExpr:
 			walk(x.Index)
-			if id, ok := x.X.(*ast.Ident); ok && g.mutable[id.Name] && g.isPkgVar(id) {
-				out = append(out, actT{kind: "Read", arg: id.Name})
-				return
-			}
 			walk(x.X)
 		case *ast.Ident:
-			// a bare reference to a mutable variable (len(m), range m, passing m) is a read
-			if g.mutable[x.Name] && g.isPkgVar(x) {
-				out = append(out, actT{kind: "Read", arg: x.Name})
+			// a bare reference to a mutable variable (len(m), range m, passing m) is a read; so is a
+			// bare reference to a shared struct (all its mutable fields)
+			for _, l := range g.mlocs(x) {
+				out = append(out, actT{kind: "Read", arg: l})
 			}
 		case *ast.BinaryExpr:
 			walk(x.X)
@@ -551,6 +817,12 @@ func (g *concGen) expr(e ast.Expr, rel map[string]bool) []actT {
 		case *ast.StarExpr:
 			walk(x.X)
 		case *ast.SelectorExpr:
+			if root, _ := chain(x); root != nil && g.structOf(root) != "" {
+				for _, l := range g.mlocs(x) {
+					out = append(out, actT{kind: "Read", arg: l})
+				}
+				return
+			}
 			walk(x.X)
 		case *ast.TypeAssertExpr:
 			walk(x.X)
